@@ -45,6 +45,8 @@ type harness struct {
 	r   *hx.Run
 	rnd *hx.Rand
 	fx  *extract.JoinFixtureSet
+	// a text each expression of the aws / oracle / photon scanner tables matches: distro -> (release, text)
+	samples map[string][][2]string
 
 	// results of the updater runs: what each release's updater stamps
 	alpineDist map[string]*claircore.Distribution // "3.18", "edge"
@@ -71,12 +73,17 @@ func Run(cfg hx.Config) error {
 	if err != nil {
 		return fmt.Errorf("fixtures: %w", err)
 	}
-	h := &harness{ctx: context.Background(), cfg: cfg, r: r, rnd: hx.NewRand(spread(cfg.Seed)), fx: fx,
+	smp, err := extract.LoadJoinRegexSamples(repoPath())
+	if err != nil {
+		return fmt.Errorf("regexp samples: %w", err)
+	}
+	h := &harness{ctx: context.Background(), cfg: cfg, r: r, rnd: hx.NewRand(spread(cfg.Seed)), fx: fx, samples: smp,
 		scanned: map[string]map[string]*claircore.Distribution{}}
 	r.Op("reset", "ok", false)
 	h.sectionStatic()
 	h.sectionOsRelease()
 	h.sectionScan()
+	h.sectionScanGenerated()
 	if err := h.sectionUpdaters(); err != nil {
 		r.Fail("", "an updater could not be run against the generated world: "+err.Error())
 	}
@@ -751,4 +758,53 @@ func (h *harness) sectionUpdaters() error {
 		}
 	}
 	return nil
+}
+
+// suseELOsRelease / suseLeapOsRelease: the os-release texts of
+// Proofs/JoinTables.lean (suseELAllRows, suseLeapRows).
+func suseELOsRelease(major string) []byte {
+	return []byte("NAME=\"SLES\"\nID=\"sles\"\nCPE_NAME=\"cpe:/o:suse:sles:" + major + ":sp3\"\n")
+}
+
+func suseLeapOsRelease(ver string) []byte {
+	return []byte("NAME=\"openSUSE Leap\"\nCPE_NAME=\"cpe:/o:opensuse:leap:" + ver + "\"\n")
+}
+
+var suseLeapVersions = []string{"15.5", "15.6", "15.7", "15.10", "16.0", "16.3"}
+
+// sectionScanGenerated: every row of the aws / oracle / photon scanner tables
+// on a file made of the text its expression matches (alone, and inside an
+// os-release of another release of the same distribution: the first matching
+// row decides), every SLES major the updater factory admits, Leap versions.
+func (h *harness) sectionScanGenerated() {
+	ctx, r := h.ctx, h.r
+	const osr, issue = "etc/os-release", "etc/issue"
+	for _, d := range []string{"aws", "oracle", "photon"} {
+		for _, p := range h.samples[d] {
+			_, got := opScan(ctx, r, d, osr, []byte(p[1]), true, "", nil, false)
+			r.Count("scan-generated:" + d)
+			if got == nil {
+				r.Fail("", fmt.Sprintf("%s scanner: the text %q, which the table's expression for release %s matches, yields no distribution", d, p[1], p[0]))
+			}
+			if d == "oracle" {
+				opScan(ctx, r, d, issue, []byte(p[1]), true, "", nil, false)
+			}
+			opScan(ctx, r, d, osr, []byte("NAME=x\n"+p[1]+"\nID=y\n"), true, "", nil, false)
+			for _, q := range h.samples[d] {
+				if q[0] != p[0] {
+					opScan(ctx, r, d, osr, []byte(p[1]+"\n"+q[1]+"\n"), true, "", nil, false)
+				}
+			}
+		}
+	}
+	for a := '1'; a <= '9'; a++ {
+		for b := '1'; b <= '9'; b++ {
+			opScan(ctx, r, "suse", osr, suseELOsRelease(string([]rune{a, b})), true, "", nil, false)
+			r.Count("scan-generated:suse-el")
+		}
+	}
+	for _, v := range suseLeapVersions {
+		opScan(ctx, r, "suse", osr, suseLeapOsRelease(v), true, "", nil, false)
+		r.Count("scan-generated:suse-leap")
+	}
 }
